@@ -1,14 +1,13 @@
 (* Completeness of the parser model, part 6: induction over the recursion levels and the theorem about lua_parse. *)
 From PV Require Import Base.Prelude Spec.LuaTokens Spec.LuaGrammar Model.Tokens Model.Parser Model.ParserInst
   Model.AstWriter Proofs.ParserProofs Proofs.ParserSpecs Proofs.ParserTheorems Proofs.ParserComplete1 Proofs.ParserComplete2
-  Proofs.ParserComplete3 Proofs.ParserComplete4.
+  Proofs.ParserComplete3 Proofs.ParserComplete4 Proofs.ParserComplete5.
 From Coq Require Import ZifyBool.
 Ltac Zify.zify_post_hook ::= Z.to_euclidean_division_equations.
 
 Section Levels.
 Variable ts : list token.
 Local Notation len := (zlen ts).
-Hypothesis SHORTIF : forall R k, comp ts (G ts k) R -> shortif_stmt ts R k.
 
 Lemma G_step k p : G ts (k + 1) p -> G' ts k p.
 Proof. unfold G, G'. lia. Qed.
@@ -21,7 +20,7 @@ Qed.
 
 Lemma comp_step k R : comp ts (G ts k) R -> comp ts (G ts (k + 1)) (step ts lua_binops lua_unops R).
 Proof.
-  intros HR. pose proof (SHORTIF R k HR) as HS.
+  intros HR. pose proof (L_shortif ts R k HR) as HS.
   constructor; cbn [step r_exp r_chunk r_semis r_stats_loop r_namelist_loop r_funcname_loop r_explist_loop
                      r_varlist_loop r_fields_loop r_elseif_loop r_precur r_binop].
   - intros p mx n items s' HG. apply (L_exp ts R k HR). apply G_step, HG.
@@ -67,3 +66,31 @@ Proof.
 Qed.
 
 End Levels.
+
+(* ------------------------------------------------------------------ from the model's tree to a derivation *)
+(* Used only to state non-vacuity examples: the model's tree of a program, with every operator nest flattened into
+   a chain node, is a derivation tree of the reference grammar (checked by computation on the example). *)
+Fixpoint to_deriv (n : nat) (t : tree) : tree :=
+  match n with
+  | O => t
+  | S n =>
+      let fix flat (m : nat) (t : tree) : list tree :=
+        match m with
+        | O => [to_deriv n t]
+        | S m =>
+            match t with
+            | Node tag _ _ _ [a; Tok i o; b] => if tag =? tExpBinOp then flat m a ++ Tok i o :: flat m b else [to_deriv n t]
+            | Node tag _ _ _ [Tok i o; a] => if tag =? tExpUnOp then Tok i o :: flat m a else [to_deriv n t]
+            | _ => [to_deriv n t]
+            end
+        end in
+      match t with
+      | Node tag s e sh fs =>
+          if (tag =? tExpBinOp) || (tag =? tExpUnOp) then Node tChain 0 0 false (flat n t)
+          else Node tag s e sh (map (to_deriv n) fs)
+      | Lst l => Lst (map (to_deriv n) l)
+      | Paren i j x => Paren i j (to_deriv n x)
+      | Hid x => Hid (to_deriv n x)
+      | _ => t
+      end
+  end.
